@@ -25,7 +25,7 @@ META = {
             "the macro VALUES are: e.g. that %U is the canonical URL) rests on the end-to-end correspondence. %g with an FTP directory "
             "listing is HTML assembled by FtpGateway outside the anchored files (not covered); %O is documented as unquoted helper "
             "output (admin class); @Squid{%code} output is quoted by the logformat machinery (C34), not by this switch. FTP error "
-            "templates (%f %F %g) are not driven end to end (no FTP server stub); ERR_DNS_FAIL is driven through a 1 s dns_timeout. "
+            "templates (%f %F %g) and %o/%O/%m/%x/%D with real helper / detail data are not driven end to end (no FTP server or external ACL stub: those letters are covered by the theorems and by the regenerated table only); ERR_DNS_FAIL is driven through a 1 s dns_timeout; URLs carrying < > \" are percent-encoded by the URL canonicaliser before they reach the expander (those scenarios are checked by the oracle only). Observation made while building: a static template that uses %S makes squid assert at startup (errorpage.cc compile(): input), because templates are validated before ERR_SQUID_SIGNATURE is loaded - administrator input only, not a C33 matter. "
             "Trusted: Coq kernel, extraction, gen/errpage_macros.py (textual analysis of the switch), gen/gen_bytemaps.cc, vlib/lab.py.",
     "technique": "Coq proof (case analysis over the regenerated macro table, induction on the template with an invariant over pieces, "
                  "fuel-bounded recursion with a termination measure; C32/C31 table lemmas) + end-to-end differential correspondence of "
